@@ -343,3 +343,7 @@ def _r19_5(res, programs):
                 res.fail("R19.5", "%s/%s" % (a, b), key, "public item sets of %s differ between %s and %s: only in %s %s; only in %s %s" % (crate, a, b, a, sorted(missing)[:4], b, sorted(extra)[:4]))
     if not done:
         res.anchor("R19.5", "-", "a pair of configurations to compare")
+
+
+LEVEL = LEVEL + ' Also the bound-polarity and half-test pairing rules are re-evaluated in the no_std and 32-bit configurations.'
+TECHNIQUE = 're-evaluation of every structural rule on the MIR of five build configurations (debug, release, 32-bit words, no_std, all features); CFG-based debug-region effect analysis; serializer / deserializer who-may-construct rules; cfg-sibling agreement of public item and impl sets'
